@@ -1,3 +1,155 @@
-/-  C18/Theorems — the ledger for property C18 (every theorem here is audited).  Placeholder. -/
+/-
+  C18/Theorems — ledger for property C18.
+-/
+import OttoVerif.C18.Model
+import OttoVerif.C18.GenFacts
+import OttoVerif.C01.Theorems
 namespace OttoVerif.C18.Thm
+open OttoVerif.C18 OttoVerif.C01
+
+/-- a stack as the runtime builds it: depths count down to 0 -/
+def WFStack : Stack → Prop
+  | [] => True
+  | [d] => d = 0
+  | d :: e :: s => d = e + 1 ∧ WFStack (e :: s)
+
+theorem enter_leave (limit : Nat) (s s' : Stack) (h : enter limit s = .ok s') : leave s' = s := by
+  cases s with
+  | nil => simp [enter] at h; subst h; rfl
+  | cons d t =>
+    simp only [enter] at h
+    split at h
+    · cases h
+    · injection h with h; subst h; rfl
+
+/-- C18.unwind_restores (scope part): whatever happens inside – normal completion, a panic of any
+    kind at any point of any nesting, or the stack-limit RangeError – every call path leaves the
+    scope chain exactly as it found it.  By mutual structural induction on the call tree. -/
+theorem run_restores (limit : Nat) :
+    (∀ (a : Act) (s : Stack), (runAct limit a s).1 = s) ∧ (∀ (as : Acts) (s : Stack), (runActs limit as s).1 = s) := by
+  suffices h : ∀ n, (∀ (a : Act), sizeOf a ≤ n → ∀ s, (runAct limit a s).1 = s) ∧
+      (∀ (as : Acts), sizeOf as ≤ n → ∀ s, (runActs limit as s).1 = s) from
+    ⟨fun a s => (h (sizeOf a)).1 a (Nat.le_refl _) s, fun as s => (h (sizeOf as)).2 as (Nat.le_refl _) s⟩
+  intro n
+  induction n with
+  | zero =>
+    constructor
+    · intro a ha; cases a <;> simp at ha <;> omega
+    · intro as ha; cases as <;> simp at ha <;> omega
+  | succ n ih =>
+    constructor
+    · intro a ha s
+      cases a with
+      | panicHere => simp [runAct]
+      | call body =>
+        simp only [runAct]
+        cases he : enter limit s with
+        | rangeError => rfl
+        | ok s' =>
+          have hb := ih.2 body (by simp at ha; omega) s'
+          simp only
+          rw [show (runActs limit body s') = ((runActs limit body s').1, (runActs limit body s').2) from rfl]
+          simp only [hb]
+          exact enter_leave limit s s' he
+    · intro as ha s
+      cases as with
+      | nil => simp [runActs]
+      | cons a rest =>
+        simp only [runActs]
+        have h1 := ih.1 a (by simp at ha; omega) s
+        cases hr : runAct limit a s with
+        | mk s' out =>
+          rw [hr] at h1
+          simp only at h1
+          subst h1
+          cases out with
+          | done => exact ih.2 rest (by simp at ha; omega) s'
+          | panicked => rfl
+          | rangeError => rfl
+
+/-- the guard: with a limit L > 0 no scope ever gets depth ≥ L -/
+theorem enter_bound (limit : Nat) (hl : limit ≠ 0) (s s' : Stack) (hs : ∀ d ∈ s, d < limit)
+    (h : enter limit s = .ok s') (h0 : 0 < limit) : ∀ d ∈ s', d < limit := by
+  cases s with
+  | nil => simp [enter] at h; subst h; intro d hd; simp at hd; omega
+  | cons e t =>
+    simp only [enter] at h
+    split at h
+    · cases h
+    · rename_i hc
+      injection h with h; subst h
+      intro d hd
+      simp only [List.mem_cons] at hd
+      rcases hd with hd | hd | hd
+      · subst hd; simp only [not_and, Nat.not_le] at hc; have := hc hl; omega
+      · subst hd; exact hs _ (by simp)
+      · exact hs d (by simp [hd])
+
+/-- C18.depth_exact: from the global scope (depth 0, as `Run` establishes it), `d+1` nested calls
+    succeed exactly when `d + 1 < L`, and otherwise end in the RangeError (for `L ≠ 0`); the limit
+    admits exactly `L − 1` nested calls. -/
+theorem depth_exact (limit : Nat) (hl : limit ≠ 0) : ∀ (d b : Nat) (t : Stack),
+    (runAct limit (nest d) (b :: t)).2 = (if b + d + 1 < limit then Outcome.done else Outcome.rangeError) := by
+  intro d
+  induction d with
+  | zero =>
+    intro b t
+    simp only [nest, runAct, enter]
+    by_cases h : b + 1 ≥ limit
+    · simp [hl, h]
+    · simp [hl, h, runActs]
+  | succ d ih =>
+    intro b t
+    simp only [nest, runAct, enter]
+    by_cases h : b + 1 ≥ limit
+    · simp [hl, h]; omega
+    · simp only [hl, ne_eq, not_false_eq_true, h, and_false, if_false, runActs]
+      have := ih (b+1) (b :: t)
+      cases hr : runAct limit (nest d) ((b + 1) :: b :: t) with
+      | mk s' out =>
+        rw [hr] at this
+        simp only at this
+        subst this
+        by_cases h2 : b + 1 + d + 1 < limit
+        · simp [h2]; omega
+        · simp [h2]; omega
+
+example : (runAct 3 (nest 1) [0]).2 = .done := by decide
+example : (runAct 3 (nest 2) [0]).2 = .rangeError := by decide
+example : (runAct 0 (nest 40) [0]).2 = .done := by decide
+
+/-- C18.labels_rest_any_sem: instance of C01.labels_at_rest for every expression semantics – in
+    particular for one in which an injected foreign panic makes the k-th expression evaluation throw:
+    after the abnormal exit `rt.labels` is empty. -/
+theorem labels_rest_any_sem {St : Type} (S : Sem St) (n m : Nat) (ss : Stmts) (σ : St) (hwl : wlList [] ss = true)
+    (hs : specProgram S m ss σ ≠ .fuel) :
+    match ottoProgram S n ss σ with
+    | .ok _ L' _ => L' = []
+    | .throw _ L' _ => L' = []
+    | .fuel => True :=
+  OttoVerif.C01.Thm.labels_at_rest S n m ss σ hwl hs
+
+/-! Regenerated facts about the current sources (GenFacts.lean is rewritten from /repo on every run). -/
+
+/-- every `enter…Scope` call site is immediately followed by a deferred `leaveScope` -/
+theorem scope_sites_paired : Gen.scopeSites.all (fun s => s.2.2) = true := by decide
+
+/-- the call sites are the ones the model assumes (a new unpaired path would show up here) -/
+theorem scope_sites_expected :
+    Gen.scopeSites.map (fun s => (s.1, s.2.1)) =
+      [("builtin.go", "builtinGlobalEval"), ("cmpl_evaluate.go", "cmplEvaluateNodeProgram"), ("otto.go", "Eval"),
+       ("otto.go", "ContextSkip"), ("otto.go", "Call"), ("type_function.go", "call"), ("type_function.go", "call")] := by decide
+
+/-- the label pushed by a labelled statement is popped by a defer -/
+theorem label_push_deferred_pop : Gen.labelPushDeferredPop = true := by decide
+
+/-- the interrupt channel is polled first thing in the statement and expression evaluators and in
+    the empty-body branch of the `for` loop -/
+theorem poll_sites : Gen.pollAtTop = [("cmplEvaluateNodeExpression", true), ("cmplEvaluateNodeStatement", true)] ∧
+    Gen.forEmptyBodyPoll = true := by decide
+
+/-- every evaluator loop that runs script statements calls the statement/expression evaluator
+    (hence polls) in each iteration -/
+theorem loops_poll : Gen.evaluatorLoops.all (fun l => l.2) = true := by decide
+
 end OttoVerif.C18.Thm
